@@ -1,3 +1,297 @@
-(** C06 — proofs. *)
+(** C06 — proofs, part 1: base64 VLQ and the [mappings] encoder against the specification-side decoder. *)
 From V Require Import Base.Util Gen.C06_tables_gen C06.Model C06.Spec.
 Local Open Scope N_scope.
+
+(** * Finite checks on the translated alphabet (re-evaluated against /repo's table on every run) *)
+
+Definition upto (n : nat) : list N := map N.of_nat (seq 0 n).
+
+Lemma in_upto n i : i < N.of_nat n -> In i (upto n).
+Proof.
+  intros H. unfold upto. apply in_map_iff. exists (N.to_nat i). split; [apply N2Nat.id|].
+  apply in_seq. lia.
+Qed.
+
+Lemma forall_upto (P : N -> bool) n : forallb P (upto n) = true -> forall i, i < N.of_nat n -> P i = true.
+Proof. intros H i Hi. rewrite forallb_forall in H. apply H, in_upto, Hi. Qed.
+
+(** the alphabet nitrogql indexes is the RFC 4648 one: digit [i] decodes to [i] *)
+Lemma b64_val_char : forall i, i < 64 -> b64_val (b64_char i) = Some i.
+Proof.
+  intros i Hi.
+  assert (H : forallb (fun i => option_eqb N.eqb (b64_val (b64_char i)) (Some i)) (upto 64) = true) by (vm_compute; reflexivity).
+  pose proof (forall_upto _ 64 H i Hi) as E. cbn beta in E.
+  destruct (b64_val (b64_char i)) as [x|]; cbn in E; [|discriminate].
+  apply N.eqb_eq in E. now subst.
+Qed.
+
+Lemma base64_chars_length : length base64_chars = 64%nat.
+Proof. vm_compute. reflexivity. Qed.
+
+(** injectivity of the table (a consequence, stated because it is what makes decoding possible) *)
+Lemma b64_char_inj : forall i j, i < 64 -> j < 64 -> b64_char i = b64_char j -> i = j.
+Proof.
+  intros i j Hi Hj E. pose proof (b64_val_char i Hi) as A. pose proof (b64_val_char j Hj) as B.
+  rewrite E in A. congruence.
+Qed.
+
+Lemma b64_val_lt : forall c x, b64_val c = Some x -> x < 64.
+Proof.
+  intros c x. unfold b64_val.
+  repeat match goal with |- context [if ?b then _ else _] => destruct b eqn:? end; intros [= <-];
+    rewrite ?andb_true_iff, ?N.leb_le, ?N.eqb_eq in *; lia.
+Qed.
+
+Lemma b64_val_not_sep : forall c x, b64_val c = Some x -> c <> 44 /\ c <> 59.
+Proof. intros c x H. split; intros ->; vm_compute in H; discriminate. Qed.
+
+(** digit-level facts, by enumeration of the 64 digits *)
+Lemma digit_facts : forall x, x < 64 ->
+  N.land x 31 = x mod 32 /\ N.testbit x 5 = (32 <=? x).
+Proof.
+  intros x Hx.
+  assert (H : forallb (fun x => (N.land x 31 =? x mod 32) && Bool.eqb (N.testbit x 5) (32 <=? x)) (upto 64) = true)
+    by (vm_compute; reflexivity).
+  pose proof (forall_upto _ 64 H x Hx) as E. cbn beta in E.
+  apply andb_true_iff in E as [E1 E2]. apply N.eqb_eq in E1. apply Bool.eqb_prop in E2. now split.
+Qed.
+
+Lemma lor32 : forall d, d < 32 -> N.lor 32 d = 32 + d.
+Proof.
+  intros d Hd.
+  assert (H : forallb (fun d => N.lor 32 d =? 32 + d) (upto 32) = true) by (vm_compute; reflexivity).
+  apply N.eqb_eq. exact (forall_upto _ 32 H d Hd).
+Qed.
+
+Lemma first_sextet_long : forall sg m, sg < 2 -> m < 16 ->
+  N.lor (N.lor sg (N.shiftl m 1)) 32 = 32 + (sg + 2 * m).
+Proof.
+  intros sg m Hs Hm.
+  assert (H : forallb (fun sg => forallb (fun m => N.lor (N.lor sg (N.shiftl m 1)) 32 =? 32 + (sg + 2 * m)) (upto 16)) (upto 2) = true)
+    by (vm_compute; reflexivity).
+  pose proof (forall_upto _ 2 H sg Hs) as E. cbn beta in E.
+  apply N.eqb_eq. exact (forall_upto _ 16 E m Hm).
+Qed.
+
+Lemma first_sextet_short : forall sg m, sg < 2 -> m < 16 -> N.lor sg (N.shiftl m 1) = sg + 2 * m.
+Proof.
+  intros sg m Hs Hm.
+  assert (H : forallb (fun sg => forallb (fun m => N.lor sg (N.shiftl m 1) =? sg + 2 * m) (upto 16)) (upto 2) = true)
+    by (vm_compute; reflexivity).
+  pose proof (forall_upto _ 2 H sg Hs) as E. cbn beta in E.
+  apply N.eqb_eq. exact (forall_upto _ 16 E m Hm).
+Qed.
+
+(** * The continuation loop *)
+
+Lemma land31 v : N.land v 31 = v mod 32.
+Proof. change 31 with (N.ones 5). rewrite N.land_ones. reflexivity. Qed.
+Lemma land15 v : N.land v 15 = v mod 16.
+Proof. change 15 with (N.ones 4). rewrite N.land_ones. reflexivity. Qed.
+Lemma shiftr5 v : N.shiftr v 5 = v / 32.
+Proof. rewrite N.shiftr_div_pow2. reflexivity. Qed.
+Lemma shiftr4 v : N.shiftr v 4 = v / 16.
+Proof. rewrite N.shiftr_div_pow2. reflexivity. Qed.
+
+(** one iteration, in arithmetic form *)
+Lemma vlq_cont_S f v : v <> 0 ->
+  vlq_cont (S f) v = option_map (cons ((if 0 <? v / 32 then 32 else 0) + v mod 32)) (vlq_cont f (v / 32)).
+Proof.
+  intros Hv. cbn [vlq_cont]. apply N.eqb_neq in Hv. rewrite Hv. rewrite shiftr5, land31.
+  assert (Hm : v mod 32 < 32) by (apply N.mod_lt; lia).
+  destruct (0 <? v / 32); [rewrite lor32 by exact Hm; reflexivity | rewrite N.lor_0_l; reflexivity].
+Qed.
+
+Lemma vlq_cont_0 f : vlq_cont f 0 = Some [].
+Proof. destruct f; reflexivity. Qed.
+
+Lemma vlq_cont_total : forall fuel v, v < 2 ^ N.of_nat fuel -> exists l, vlq_cont fuel v = Some l.
+Proof.
+  induction fuel as [|f IH]; intros v Hv.
+  - cbn in Hv. assert (v = 0) by lia. subst. exists []. reflexivity.
+  - destruct (N.eq_dec v 0) as [->|Hn]; [exists []; reflexivity|].
+    rewrite vlq_cont_S by exact Hn.
+    destruct (IH (v / 32)) as [l Hl].
+    + rewrite Nat2N.inj_succ, N.pow_succ_r' in Hv.
+      apply N.div_lt_upper_bound; [lia|].
+      assert (0 < 2 ^ N.of_nat f) by (apply N.neq_0_lt_0, N.pow_nonzero; lia). lia.
+    + rewrite Hl. eexists. reflexivity.
+Qed.
+
+Lemma pos_lt_pow_size : forall p, N.pos p < 2 ^ N.of_nat (Pos.size_nat p).
+Proof.
+  induction p as [p IH|p IH|]; cbn [Pos.size_nat].
+  - rewrite Nat2N.inj_succ, N.pow_succ_r'. change (N.pos p~1) with (2 * N.pos p + 1). lia.
+  - rewrite Nat2N.inj_succ, N.pow_succ_r'. change (N.pos p~0) with (2 * N.pos p). lia.
+  - reflexivity.
+Qed.
+
+Lemma lt_pow_size_nat : forall v, v < 2 ^ N.of_nat (N.size_nat v).
+Proof. intros [|p]; [reflexivity | apply pos_lt_pow_size]. Qed.
+
+(** the loop never runs out of the fuel [base64_vlq]'s model gives it *)
+Lemma vlq_cont_fuel : forall v, exists l, vlq_cont (N.size_nat v) (N.shiftr v 4) = Some l.
+Proof.
+  intros v. apply vlq_cont_total. rewrite shiftr4.
+  eapply N.le_lt_trans; [|apply lt_pow_size_nat].
+  apply N.div_le_upper_bound; lia.
+Qed.
+
+Lemma vlq_sextets_total : forall n, exists l, vlq_sextets n = Some l.
+Proof.
+  intros n. unfold vlq_sextets. destruct (Z.abs_N n <? 16); [eexists; reflexivity|].
+  destruct (vlq_cont_fuel (Z.abs_N n)) as [l Hl]. rewrite Hl. eexists. reflexivity.
+Qed.
+
+Lemma vlq_encode_total : forall n, exists t, vlq_encode n = Some t.
+Proof.
+  intros n. unfold vlq_encode. destruct (vlq_sextets_total n) as [l Hl]. rewrite Hl. eexists. reflexivity.
+Qed.
+
+(** * Decoding what the loop emits *)
+
+Lemma shiftl_mul a k : N.shiftl a k = a * 2 ^ k.
+Proof. apply N.shiftl_mul_pow2. Qed.
+
+Lemma decode_go_cons c r shift acc :
+  vlq_decode_go (c :: r) shift acc =
+  match b64_val c with
+  | None => None
+  | Some d => let acc' := acc + N.shiftl (N.land d 31) shift in
+              if N.testbit d 5 then vlq_decode_go r (shift + 5) acc' else Some (acc', r)
+  end.
+Proof. reflexivity. Qed.
+
+Lemma cont_decode : forall fuel v l, vlq_cont fuel v = Some l ->
+  forall d shift acc rest, d < 32 ->
+  vlq_decode_go (b64_char ((if 0 <? v then 32 else 0) + d) :: map b64_char l ++ rest) shift acc
+  = Some (acc + N.shiftl (d + 32 * v) shift, rest).
+Proof.
+  induction fuel as [|f IH]; intros v l Hl d shift acc rest Hd.
+  - cbn in Hl. destruct (v =? 0) eqn:Ev; [|discriminate]. apply N.eqb_eq in Ev. subst v.
+    injection Hl as <-. cbn [map app]. rewrite decode_go_cons. rewrite N.ltb_irrefl, N.add_0_l.
+    rewrite b64_val_char by lia. cbv zeta.
+    destruct (digit_facts d ltac:(lia)) as [E1 E2]. rewrite E1, E2.
+    replace (32 <=? d) with false by (symmetry; apply N.leb_gt; lia).
+    rewrite N.mod_small by lia. rewrite N.mul_0_r, N.add_0_r. reflexivity.
+  - destruct (N.eq_dec v 0) as [->|Hn].
+    + rewrite vlq_cont_0 in Hl. injection Hl as <-. cbn [map app]. rewrite decode_go_cons. rewrite N.ltb_irrefl, N.add_0_l.
+      rewrite b64_val_char by lia. cbv zeta.
+      destruct (digit_facts d ltac:(lia)) as [E1 E2]. rewrite E1, E2.
+      replace (32 <=? d) with false by (symmetry; apply N.leb_gt; lia).
+      rewrite N.mod_small by lia. rewrite N.mul_0_r, N.add_0_r. reflexivity.
+    + rewrite vlq_cont_S in Hl by exact Hn.
+      destruct (vlq_cont f (v / 32)) as [l'|] eqn:Hl'; [|discriminate]. injection Hl as <-.
+      replace (0 <? v) with true by (symmetry; apply N.ltb_lt; lia).
+      cbn [map app]. rewrite decode_go_cons.
+      rewrite b64_val_char by lia. cbv zeta.
+      destruct (digit_facts (32 + d) ltac:(lia)) as [E1 E2]. rewrite E1, E2.
+      replace (32 <=? 32 + d) with true by (symmetry; apply N.leb_le; lia).
+      assert (Hm : v mod 32 < 32) by (apply N.mod_lt; lia).
+      rewrite (IH (v / 32) l' Hl' (v mod 32) (shift + 5) _ rest Hm).
+      f_equal. f_equal.
+      replace ((32 + d) mod 32) with d.
+      2:{ rewrite N.add_comm. rewrite <- (N.mul_1_l 32) at 1. rewrite N.mod_add by lia. rewrite N.mod_small; lia. }
+      rewrite !shiftl_mul, N.pow_add_r. change (2 ^ 5) with 32.
+      pose proof (N.div_mod v 32 ltac:(lia)) as Hv.
+      replace (v mod 32 + 32 * (v / 32)) with v by lia. ring.
+Qed.
+
+(** the number the decoder assembles from [base64_vlq(n)] is [2*|n| + sign] *)
+Lemma sextets_decode : forall n l rest, vlq_sextets n = Some l ->
+  vlq_decode_go (map b64_char l ++ rest) 0 0 = Some ((if (n <? 0)%Z then 1 else 0) + 2 * Z.abs_N n, rest).
+Proof.
+  intros n l rest H. unfold vlq_sextets in H.
+  set (sg := if (n <? 0)%Z then 1 else 0) in *. set (m := Z.abs_N n) in *.
+  assert (Hsg : sg < 2) by (subst sg; destruct (n <? 0)%Z; lia).
+  destruct (m <? 16) eqn:Em.
+  - apply N.ltb_lt in Em. injection H as <-. rewrite first_sextet_short by assumption.
+    cbn [map app]. rewrite decode_go_cons. rewrite b64_val_char by lia. cbv zeta.
+    destruct (digit_facts (sg + 2 * m) ltac:(lia)) as [E1 E2]. rewrite E1, E2.
+    replace (32 <=? sg + 2 * m) with false by (symmetry; apply N.leb_gt; lia).
+    rewrite N.mod_small by lia. rewrite N.shiftl_0_r. reflexivity.
+  - apply N.ltb_ge in Em.
+    destruct (vlq_cont (N.size_nat m) (N.shiftr m 4)) as [l'|] eqn:Hl'; [|discriminate]. injection H as <-.
+    rewrite land15, shiftr4 in *.
+    assert (Hm : m mod 16 < 16) by (apply N.mod_lt; lia).
+    rewrite first_sextet_long by assumption.
+    assert (Hq : 0 < m / 16) by (apply N.div_str_pos; lia).
+    pose proof (cont_decode _ _ _ Hl' (sg + 2 * (m mod 16)) 0 0 rest ltac:(lia)) as D.
+    replace (0 <? m / 16) with true in D by (symmetry; apply N.ltb_lt; exact Hq).
+    cbn [map app]. rewrite D. f_equal. f_equal.
+    rewrite N.shiftl_0_r, N.add_0_l.
+    pose proof (N.div_mod m 16 ltac:(lia)) as Hv. lia.
+Qed.
+
+Lemma z_of_vlq_spec : forall n, z_of_vlq ((if (n <? 0)%Z then 1 else 0) + 2 * Z.abs_N n) = n.
+Proof.
+  intros n. unfold z_of_vlq. destruct (n <? 0)%Z eqn:En.
+  - apply Z.ltb_lt in En. rewrite N.add_comm, N.odd_add_mul_2. cbn [N.odd].
+    replace (2 * Z.abs_N n + 1) with (N.succ_double (Z.abs_N n)) by (rewrite N.succ_double_spec; lia).
+    rewrite N.div2_succ_double. rewrite N2Z.inj_abs_N. lia.
+  - apply Z.ltb_ge in En. rewrite N.add_0_l, N.odd_mul, andb_false_l by idtac.
+    replace (2 * Z.abs_N n) with (N.double (Z.abs_N n)) by (rewrite N.double_spec; lia).
+    rewrite N.div2_double. rewrite N2Z.inj_abs_N. lia.
+Qed.
+
+(** ** vlq_roundtrip: for EVERY integer, decoding what [base64_vlq] emits (followed by anything)
+       yields the integer and leaves the rest *)
+Lemma vlq_roundtrip_lemma : forall (n : Z) t rest, vlq_encode n = Some t -> vlq_decode (t ++ rest) = Some (n, rest).
+Proof.
+  intros n t rest H. unfold vlq_encode in H.
+  destruct (vlq_sextets n) as [l|] eqn:Hl; [|discriminate]. injection H as <-.
+  unfold vlq_decode. rewrite (sextets_decode n l rest Hl). rewrite z_of_vlq_spec. reflexivity.
+Qed.
+
+(** ** vlq_encode_wf: digits are < 64, all but the last carry the continuation bit, the last does not *)
+Definition wf_sextets (l : list N) : Prop :=
+  exists init last, l = init ++ [last] /\ Forall (fun x => 32 <= x < 64) init /\ last < 32.
+
+Lemma vlq_cont_wf : forall fuel v l, vlq_cont fuel v = Some l -> v <> 0 -> wf_sextets l.
+Proof.
+  induction fuel as [|f IH]; intros v l H Hv.
+  - cbn in H. apply N.eqb_neq in Hv. rewrite Hv in H. discriminate.
+  - rewrite vlq_cont_S in H by exact Hv.
+    destruct (vlq_cont f (v / 32)) as [l'|] eqn:Hl'; [|discriminate]. injection H as <-.
+    assert (Hm : v mod 32 < 32) by (apply N.mod_lt; lia).
+    destruct (N.eq_dec (v / 32) 0) as [E|E].
+    + rewrite E in *. rewrite vlq_cont_0 in Hl'. injection Hl' as <-. rewrite N.ltb_irrefl.
+      exists [], (v mod 32). repeat split; [constructor | lia].
+    + destruct (IH _ _ Hl' E) as (init & last & -> & Hi & Hlast).
+      replace (0 <? v / 32) with true by (symmetry; apply N.ltb_lt; lia).
+      exists ((32 + v mod 32) :: init), last. repeat split; [constructor; [lia|exact Hi] | exact Hlast].
+Qed.
+
+Lemma vlq_sextets_wf : forall n l, vlq_sextets n = Some l -> wf_sextets l.
+Proof.
+  intros n l H. unfold vlq_sextets in H.
+  set (sg := if (n <? 0)%Z then 1 else 0) in *. set (m := Z.abs_N n) in *.
+  assert (Hsg : sg < 2) by (subst sg; destruct (n <? 0)%Z; lia).
+  destruct (m <? 16) eqn:Em.
+  - apply N.ltb_lt in Em. injection H as <-. rewrite first_sextet_short by assumption.
+    exists [], (sg + 2 * m). repeat split; [constructor | lia].
+  - apply N.ltb_ge in Em.
+    destruct (vlq_cont (N.size_nat m) (N.shiftr m 4)) as [l'|] eqn:Hl'; [|discriminate]. injection H as <-.
+    rewrite land15, shiftr4 in *.
+    assert (Hm : m mod 16 < 16) by (apply N.mod_lt; lia).
+    rewrite first_sextet_long by assumption.
+    assert (Hq : m / 16 <> 0) by (apply N.neq_0_lt_0, N.div_str_pos; lia).
+    destruct (vlq_cont_wf _ _ _ Hl' Hq) as (init & last & -> & Hi & Hlast).
+    exists ((32 + (sg + 2 * (m mod 16))) :: init), last. repeat split; [constructor; [lia|exact Hi] | exact Hlast].
+Qed.
+
+(** ** vlq_model_is_rust: on the whole [isize] range (and for 2^63 = |isize::MIN|) the 64-bit
+       computation is the unbounded one *)
+Lemma vlq_model_is_rust_lemma : forall n, (- 2 ^ 63 <= n < 2 ^ 63)%Z -> vlq_sextets64 n = vlq_sextets n.
+Proof.
+  intros n Hn. unfold vlq_sextets64, vlq_sextets, w64.
+  assert (Hm : Z.abs_N n <= 2 ^ 63) by lia.
+  rewrite (N.mod_small (Z.abs_N n)) by (change (2 ^ 64) with (2 * 2 ^ 63); lia).
+  set (m := Z.abs_N n) in *.
+  destruct (m <? 16) eqn:Em.
+  - apply N.ltb_lt in Em. rewrite N.mod_small; [reflexivity|].
+    rewrite shiftl_mul. change (2 ^ 1) with 2. change (2 ^ 64) with 18446744073709551616. lia.
+  - rewrite N.mod_small; [reflexivity|].
+    rewrite shiftl_mul, land15. assert (m mod 16 < 16) by (apply N.mod_lt; lia).
+    change (2 ^ 1) with 2. change (2 ^ 64) with 18446744073709551616. lia.
+Qed.
